@@ -947,6 +947,9 @@ func init() {
 				sp.Frame = "C14.frame"
 				sp.CopyClause = true
 				sp.NoReadTwin = true
+				// bins whose weight has underflowed to exactly zero (5e-324 halved): a read
+				// that tidies them away changes emptiness and extremes
+				sp.Seeds = append(sp.Seeds, storeSeed("weights-underflowed-to-zero", opAddW(0, o.idxA[1], 5e-324), opAddW(0, o.idxA[2], 5e-324), opReweight(0, 0.5)))
 			})
 			sh := shardsOfSpecs(stSpecs)
 			var specs []*SketchScenarioSpec
